@@ -1395,7 +1395,7 @@ class Interp:
             return
         self.ctx.functions_inlined[info.key] += 1
         c = self.contracts.get(info.key)
-        if c is not None and c.requires and not self.ctx.spec_depth and not self.ctx.concrete_math \
+        if c is not None and c.requires and c.loops and not self.ctx.spec_depth and not self.ctx.concrete_math \
                 and not (self.active_contract is not None and c.key == self.active_contract.key
                          and self.call_depth == 0):
             # inlined callee that has a contract: its preconditions are proved here and may be relied
